@@ -64,3 +64,19 @@ package chat
 //@   ensures err == nil && !isnil(t.TargetName) ==> n >= hl + 3                        [@count]
 //@   ensures Wfail(wk) ==> err != nil                                                [@errprop]
 //@   modifies sink(w)                                                                [@frame]
+
+// ---------------------------------------------------------------- Message.MarshalNBT (C17)
+//
+// nbt.Marshaler protocol: the encoder has already written this value's tag header; MarshalNBT
+// writes the PAYLOAD only. For a component (a compound) the payload starts with TagEnd or with a
+// member header whose name is not empty - it must not start with a second root header (compound
+// tag with an empty name), which no reader would take for the component's members.
+// The message structs are assumed to be encoded as compounds (nbt_tagid(...) == 10).
+//@ func (Message).MarshalNBT(m; w) (err)
+//@   let wk = sink(w)
+//@   let l0 = old(Wlen(wk))
+//@   requires nbt_tagid(typeid(rawMsgStruct)) == 10 && nbt_tagid(typeid(translateMsg)) == 10 && l0 < 1<<30
+//@   ensures all(k, 0, l0, Wout(wk, k) == old(Wout(wk, k)))                         [@frame]
+//@   ensures err == nil ==> Wlen(wk) >= l0 + 1 && (Wout(wk, l0) == 0 || (Wlen(wk) >= l0 + 3 && int(be16(Woutrow(wk), l0 + 1)) != 0))   [@value]
+//@   ensures Wfail(wk) ==> err != nil                                                [@errprop]
+//@   modifies sink(w)                                                                [@frame]
